@@ -21,6 +21,7 @@ static int cur = -1;
 static bool on = false;
 static const uint8_t *ch = nullptr;
 static size_t chn = 0, chi = 0, nsw = 0, npts = 0;
+static size_t nspurious = 0;
 static std::vector<uint8_t> wid;                          // number of alternatives at every consumed choice
 static std::map<const void *, int> owner;                // mutex -> tid (absent = free)
 static std::map<const void *, std::deque<int>> waiters;  // cv -> tids
@@ -66,7 +67,23 @@ static int pick(bool self_ok) {
     if (n == 0) deadlock();
     if (n == 1) return en[0];
     wid.push_back((uint8_t)n);
-    return en[next_choice() % n];
+    uint8_t c = next_choice();
+    if (c & 0x80) {
+        // spurious wake-up (permitted by POSIX and C++): one thread parked on a condition variable returns from its wait
+        // without having been signalled; which one is taken from the upper bits of the same byte
+        std::vector<Th *> parked;
+        for (Th *t : ths) if (t->st == B_CV) parked.push_back(t);
+        if (!parked.empty()) {
+            Th *t = parked[(size_t)((c >> 3) & 0xf) % parked.size()];
+            auto &w = waiters[t->obj];
+            for (size_t i = 0; i < w.size(); ++i) if (w[i] == t->id) { w.erase(w.begin() + (long)i); break; }
+            const void *cvp = t->obj;
+            t->signalled = true; t->st = B_MUTEX; t->obj = t->cvm; ++nspurious;
+            if (on_wake) on_wake(t->id, cvp);
+        }
+        c &= 0x07;
+    }
+    return en[c % n];
 }
 static void switch_to(int nxt, bool park_self) {
     if (nxt == cur) return;
@@ -82,7 +99,7 @@ static void block() { switch_to(pick(false), true); }
 
 void begin(const uint8_t *c, size_t n) {
     ths.clear(); owner.clear(); waiters.clear();
-    ch = c; chn = n; chi = 0; nsw = 0; npts = 0; wid.clear();
+    ch = c; chn = n; chi = 0; nsw = 0; npts = 0; nspurious = 0; wid.clear();
     Th *t = new Th; t->id = 0; sem_init(&t->sem, 0, 0); t->real = pthread_self();
     ths.push_back(t); me = t; cur = 0; on = true;
 }
@@ -102,6 +119,7 @@ const void *blocked_on(int tid) { return ths[tid]->obj; }
 size_t choices_used() { return chi; }
 size_t switches() { return nsw; }
 size_t points() { return npts; }
+size_t spurious_wakeups() { return nspurious; }
 const std::vector<uint8_t> &widths() { return wid; }
 
 static void *tramp(void *p) {
